@@ -45,6 +45,9 @@ def date_join(a, b, j):
         "zwischen": "zwischen " + a + " und " + b,
         "von": "von " + a + " bis " + b,
         "from": "from " + a + " to " + b,
+        # the joiner word written without blanks ('9to5', '9bis17', '5.8.bis16.8.')
+        "to_glued": a + "to" + b,
+        "bis_glued": a + "bis" + b,
     }[j]
 
 
@@ -91,20 +94,22 @@ def plan(tier, seed):
     bounds += [(a.capitalize(), s_) for a, s_ in bounds] + [(a.upper(), s_) for a, s_ in bounds if a.startswith(("not ", "nicht "))]
     bounds = list(dict.fromkeys(bounds))
     xs = ["5pm", "17:30", "8.5.2018", "monday", "tomorrow", "12.5."]
-    joins_clock = JOINS if tier == "thorough" else ["-", " - ", "to", "bis", "between", "von"]
+    joins_clock = (JOINS if tier == "thorough" else ["-", " - ", "to", "bis", "between", "von"]) + ["to_glued", "bis_glued"]
     variants = [("00", 0, 0), ("30-35", 30, 35), ("digits", 0, 0)]
 
     def gen():
         for a in DATES:
             for b in DATES:
-                for j in JOINS:
+                for j in JOINS + ["to_glued", "bis_glued"]:
                     for style in (0, 1):
                         yield ("dates", date_join(dstr(a, style), dstr(b, style), j), (a.year, a.month, a.day), (b.year, b.month, b.day), j, TS)
         for ha in range(24):
             for hb in range(24):
                 for vname, ma, mb in variants:
                     for j in joins_clock:
-                        if vname == "digits" and j not in ("-", "to", "bis", "von", "between"):
+                        if vname == "digits" and j not in ("-", "to", "bis", "von", "between", "to_glued", "bis_glued"):
+                            continue
+                        if j.endswith("_glued") and vname == "30-35" and tier == "quick":
                             continue
                         ta = clock_text(ha, ma, vname)
                         tb = clock_text(hb, mb, vname)
